@@ -5,6 +5,7 @@ import TTModel.Expr
 
 `lake env lean --run TTModel/DriverAD.lean < cases.txt`
 line : `ad nT <T trains…> nM <M trains…> <T|M> <operand> <core> <SE in prefix notation>`
+       `adp … <core> k (<i> <SE>)*k <SE>` : programs with k scalar-scaled operands defined first (`evalProg`)
 out  : `ad <value> <r0> <m> <n> <r1> <∂value/∂entry …>` (row-major over the tracked core)
 -/
 namespace TT.DriverAD
@@ -69,10 +70,11 @@ def setAt {β : Type} : List β → Nat → β → List β
 
 def run : PM String := do
   let op ← next
-  if op != "ad" then throw s!"op? {op}"
+  if op != "ad" && op != "adp" then throw s!"op? {op}"
   let nT ← nat; let ts ← many nT tt
   let nM ← nat; let ms ← many nM tt
   let kind ← next; let oi ← nat; let ci ← nat
+  let lets ← (if op == "adp" then do let k ← nat; many k (do let i ← nat; let s ← se; pure (i, s)) else pure #[])
   let e ← se
   let envT := ts.toList.map (·.2)
   let envM := ms.toList.map (·.2)
@@ -87,7 +89,7 @@ def run : PM String := do
       let tracked := setAt (base.map lift) ci pc
       let eT := if kind == "M" then liftEnv envT else setAt (liftEnv envT) oi tracked
       let eM := if kind == "M" then setAt (liftEnv envM) oi tracked else liftEnv envM
-      evalS eT eM e
+      evalProg eT eM lets.toList e
     let v := (evalAt none).v
     let grads := (List.range total).map (fun p => (evalAt (some p)).d)
     let gs := grads.foldl (fun acc g => acc ++ " " ++ toString g) ""
